@@ -131,6 +131,48 @@ impl Sem for GeneralEvaluationDomain<Fr> {
     }
     std_io!();
 }
+type Fm = ark_test_curves::bn384_small_two_adicity::Fr;
+
+/// over a field with a small subgroup (bn384 Fr: 2^12 * 3^2) the general domain
+/// is radix-2 for small sizes and mixed-radix beyond
+impl Sem for GeneralEvaluationDomain<Fm> {
+    fn gen(g: &mut G<'_>) -> Self {
+        let n = *g.rng.pick(&[1usize, 2, 100, 4096, 4097, 5000, 8192, 10000, 12288, 20000, 36864]);
+        let d = GeneralEvaluationDomain::<Fm>::new(n).unwrap();
+        if g.rng.chance(1, 3) {
+            d.get_coset(Fm::from(5u64)).unwrap()
+        } else {
+            d
+        }
+    }
+    fn same(&self, o: &Self) -> bool {
+        self == o
+    }
+    std_io!();
+}
+impl Sem for ark_poly::MixedRadixEvaluationDomain<Fm> {
+    fn gen(g: &mut G<'_>) -> Self {
+        let n = *g.rng.pick(&[1usize, 3, 9, 100, 4097, 6000, 12288, 36864]);
+        ark_poly::MixedRadixEvaluationDomain::<Fm>::new(n).unwrap()
+    }
+    fn same(&self, o: &Self) -> bool {
+        self == o
+    }
+    std_io!();
+}
+impl Sem for Evaluations<Fm, GeneralEvaluationDomain<Fm>> {
+    fn gen(g: &mut G<'_>) -> Self {
+        let n = *g.rng.pick(&[2usize, 3, 6, 9, 18, 24]);
+        let d = GeneralEvaluationDomain::<Fm>::new(n).unwrap();
+        let evals = (0..EvaluationDomain::size(&d)).map(|_| Fm::gen(g)).collect();
+        Evaluations::from_vec_and_domain(evals, d)
+    }
+    fn same(&self, o: &Self) -> bool {
+        self == o
+    }
+    std_io!();
+}
+
 impl Sem for Evaluations<Fr, Radix2EvaluationDomain<Fr>> {
     fn gen(g: &mut G<'_>) -> Self {
         let d = Radix2EvaluationDomain::<Fr>::new(1usize << g.rng.below(6)).unwrap();
@@ -248,6 +290,9 @@ pub fn more() -> Vec<Entry> {
         e::<SparsePolynomial<Fr>>("poly SparsePolynomial<Fr>", C18, 2, 8),
         e::<Radix2EvaluationDomain<Fr>>("poly Radix2EvaluationDomain<Fr>", C18, 1, 8),
         e::<GeneralEvaluationDomain<Fr>>("poly GeneralEvaluationDomain<Fr>", C18, 1, 8),
+        e::<GeneralEvaluationDomain<Fm>>("poly GeneralEvaluationDomain<bn384 Fr> (radix-2 or mixed-radix)", C18, 2, 8),
+        e::<ark_poly::MixedRadixEvaluationDomain<Fm>>("poly MixedRadixEvaluationDomain<bn384 Fr>", C18, 1, 8),
+        e::<Evaluations<Fm, GeneralEvaluationDomain<Fm>>>("poly Evaluations<bn384 Fr,General>", C18, 1, 8),
         e::<Evaluations<Fr, Radix2EvaluationDomain<Fr>>>("poly Evaluations<Fr,Radix2>", C18, 1, 8),
         e::<DenseMultilinearExtension<Fr>>("poly DenseMultilinearExtension<Fr>", C18, 1, 8),
         e::<SparseMultilinearExtension<Fr>>("poly SparseMultilinearExtension<Fr>", C18, 1, 8),
